@@ -426,7 +426,7 @@ func TestVerifC41Dialer(t *testing.T) {
 		tw := vfNewTrace(t, name)
 		for i := 1; i <= ntr; i++ {
 			// the dialer's options are a dimension of the execution
-			o := c41Opts{conc: conc, direct: i%4 == 3, localAddr: rng.Intn(3) == 0,
+			o := c41Opts{conc: conc, direct: i%5 == 3, localAddr: rng.Intn(3) == 0,
 				cache: []time.Duration{0, 0, time.Nanosecond, time.Hour}[rng.Intn(4)]}
 			pickHost := func() int {
 				if o.direct {
@@ -450,7 +450,7 @@ func TestVerifC41Dialer(t *testing.T) {
 					dials = append(dials, c41Dial{host: 4, timeout: 2500 * time.Millisecond})
 				}
 				dials = append(dials, c41Dial{host: 4, timeout: 3500 * time.Millisecond, delay: 100 * time.Millisecond})
-			case o.direct && conc > 0 && i%8 == 3:
+			case o.direct && conc > 0 && i%10 == 3:
 				// directed, literal addresses: hanging dials hold every slot, one more dial to an
 				// accepting endpoint cannot get a slot before its deadline
 				dials = dials[:0]
@@ -458,14 +458,22 @@ func TestVerifC41Dialer(t *testing.T) {
 					dials = append(dials, c41Dial{host: c41FirstDirect + 1, timeout: 700 * time.Millisecond})
 				}
 				dials = append(dials, c41Dial{host: c41FirstDirect, timeout: 200 * time.Millisecond, delay: 80 * time.Millisecond})
-			case !o.direct && i%3 == 0:
+			case !o.direct && (i%5 == 0 || i%5 == 2):
 				// directed: concurrent dials to ONE host with several addresses (refusing and
 				// accepting ones): each dial walks the address list from its own start address
-				h := []int{1, 3, 6, 1, 2, 5}[rng.Intn(6)]
-				for k := range dials {
-					dials[k] = c41Dial{host: h, timeout: 400 * time.Millisecond, delay: time.Duration(rng.Intn(3000)) * time.Microsecond}
+				// (the first dial fills the DNS cache, so that the others share its entry and cursor)
+				h := []int{1, 3, 1, 2, 5, 1}[rng.Intn(6)]
+				if o.cache == time.Nanosecond {
+					o.cache = 0
 				}
-			case !o.direct && i%3 == 1:
+				dials = make([]c41Dial, 5)
+				for k := range dials {
+					dials[k] = c41Dial{host: h, timeout: 400 * time.Millisecond}
+					if k > 0 {
+						dials[k].delay = 30*time.Millisecond + time.Duration(rng.Intn(3000))*time.Microsecond
+					}
+				}
+			case !o.direct && i%5 == 1:
 				// directed: a hanging dial holds a slot while others queue for it
 				dials[0] = c41Dial{host: 4, timeout: 400 * time.Millisecond}
 				dials[1] = c41Dial{host: 0, timeout: 150 * time.Millisecond, delay: 30 * time.Millisecond}
